@@ -1,6 +1,7 @@
 package main
 
 import (
+	"time"
 	"bytes"
 	"encoding/json"
 	"os"
@@ -74,6 +75,54 @@ func runC06(c *Ctx) {
 		}
 	}
 	c.addResults(c.runUnits(helpers, o3, so, 16))
+	// package-wide frame clause: every other built-in of pkg/cl (gi and the other packages in the thorough tier)
+	// must not store, append in place or copy into a list array that existed when it was entered. Functions that
+	// are destructive by definition fail this on the pinned tree and stay undecided (never claimed); a function
+	// that satisfies it on the pinned tree is held to it.
+	done := map[string]bool{}
+	for _, l := range [][]string{c06Fresh, c06Tail, c06NoWrite} {
+		for _, fn := range funcsInFiles(c, l) {
+			done[vc.FuncName(fn)] = true
+		}
+	}
+	pk := map[string]bool{"cl": true}
+	if c.Tier == "thorough" {
+		for _, p := range c09Pkgs {
+			pk[p] = true
+		}
+	}
+	var rest []*ssa.Function
+	var names []string
+	for n := range c.P.Funcs {
+		names = append(names, n)
+	}
+	sort.Strings(names)
+	for _, n := range names {
+		fn := c.P.Funcs[n]
+		if pk[pkgShort(fn)] && isCallMethod(fn) && !done[n] && cs.ByFunc[n] == nil {
+			rest = append(rest, fn)
+		}
+	}
+	o4 := base
+	o4.InlineSize = 80
+	resRest := c.runUnits(rest, o4, &vc.SolveOpts{TimeoutMs: 1500, RaceTimeout: 4 * time.Second, Models: false}, 16)
+	for _, r := range resRest {
+		if r == nil {
+			continue
+		}
+		var keep []*vc.Obligation
+		for _, ob := range r.Obls {
+			if strings.HasPrefix(ob.Kind, "frame:") {
+				keep = append(keep, ob)
+			}
+		}
+		r.Obls = keep
+	}
+	c.addResults(resRest)
+	c.Extra["package_wide_frame_functions"] = len(rest)
+	c.Covers = func(name string) bool {
+		return c.Tier == "thorough" || strings.HasPrefix(name, "cl.") || strings.HasPrefix(name, "slip.") || strings.HasPrefix(name, "generic.") || strings.HasPrefix(name, "repl.")
+	}
 	// explicit sequence contracts tagged C06 (insertMethod, Stash.clear)
 	runContracts(c, cs, vc.Options{Safety: false, InlineDepth: 2, InlineSize: 80}, so)
 	c.Assume = append(c.Assume, "callees that are not inlined are abstracted (their own stores are their own obligations only if they are in the file lists)",
